@@ -74,7 +74,7 @@ def present(mat, flat_obs):
 def run_c08(ctx, spec):
     pid, tier, seed = ctx["pid"], ctx["tier"], ctx["seed"]
     ncases, nops = spec["sizes"][tier]
-    cfg = dict(traj_fields={"error"}, resync_fields=set())
+    cfg = dict(traj_fields={"error"}, resync_fields=set(), scan_bias=0.35)
     report, bad, cases, _ = dyn.run_stream(pid, seed, ncases, nops, cfg, jobs=12)
     out = base_outcome(report)
     out["rule"] = ("every observation returned by reset/step/generative_step in random histories under random mode "
@@ -453,7 +453,7 @@ def run_c11(ctx, spec):
     evals, distinct = 0, set()
     cmds_outs = []
     cap = 1500 if tier == "quick" else 20000
-    for name, sd, scenario in scenario_pool(rng, nscen):
+    for name, sd, scenario in scenario_pool(rng, nscen, dict(multi_route_frac=0.35)):
         where = dict(scenario=sd)
         try:
             sdw = scen.sd_wire(sd)
@@ -510,8 +510,12 @@ def run_c11(ctx, spec):
                     out["violations"].append(viol(pid, "decoded action is neither the no-op nor a member of the flat set",
                                                   vector=v, impl=ia, **where))
                     break
-            # mask along a random walk
+            # the mask in the states of several independent walks (other routes, equal numbers of discovered
+            # hosts), visited in random order on ONE environment: it is a function of the current state alone
             runner, states = walk_states(rng, scenario, sd, nsteps)
+            for _w in range(3):
+                states = states + walk_states(rng, scenario, sd, nsteps + 6)[1]
+            rng.shuffle(states)
             sts = [state_wire(s.tensor, runner.lay) for s in states]
             cmd = [8, sdw, sts]
             enc = run_driver([cmd])[0]
@@ -543,8 +547,9 @@ def run_c11(ctx, spec):
                                           traceback=tb[-2000:], **where))
     # the mask along whole histories (mask queries right after resets, between steps, after further resets)
     hcfg = dict(need_flat=True, traj_fields={"mask", "error"},
-                op_weights=dict(step=0.5, gen=0.04, reset=0.14, goal=0.02, mask=0.3))
-    rep, bad, hcases, _ = dyn.run_stream("C11", seed + 11, 50 if tier == "quick" else 800, (8, 40), hcfg, jobs=12)
+                op_weights=dict(step=0.5, gen=0.04, reset=0.14, goal=0.02, mask=0.3),
+                mask_choices=[0.3, 0.3, 0.08, 0.03], multi_route_frac=0.4)
+    rep, bad, hcases, _ = dyn.run_stream("C11", seed + 11, 150 if tier == "quick" else 1500, (8, 50), hcfg, jobs=12)
     evals += rep["ops"]
     for c in bad:
         i, f = c["diff"]
@@ -886,9 +891,14 @@ def run_c13(ctx, spec):
     for (sd, modes, ops, outs), m in zip(expect, mouts):
         d = dyn.diff_outs(outs, m[1], dyn.FIELDS["C13"]) if m != [-1] else (0, "model-rejects")
         if d is not None:
-            out["violations"].append(dict(kind="broken-correspondence", property=pid, failing_input_found=False,
-                                          broken=f"C13 trajectory correspondence, field '{d[1]}'", scenario=sd, modes=modes,
-                                          ops=ops[:d[0] + 1], what="implementation and model trajectories differ"))
+            found = c13_search(sd, modes, ops, d[0])
+            if found:
+                out["violations"].append(viol(pid, found, kind="genstep-record", scenario=sd, modes=modes,
+                                              history=ops[:d[0] + 1]))
+            else:
+                out["violations"].append(dict(kind="broken-correspondence", property=pid, failing_input_found=False,
+                                              broken=f"C13 trajectory correspondence, field '{d[1]}'", scenario=sd, modes=modes,
+                                              ops=ops[:d[0] + 1], what="implementation and model trajectories differ"))
     out["evaluations"], out["distinct_nontrivial"] = evals, len(distinct)
     out["correspondence"] = dict(cases=ncases, compared_ops=evals,
                                  in_kernel_crosscheck=crosscheck(pid, tier, list(zip(cmds, mouts)),
@@ -896,6 +906,39 @@ def run_c13(ctx, spec):
     real = [v for v in out["violations"] if v.get("failing_input_found")]
     out["violations"] = (real or out["violations"])[:5]
     return out
+
+
+def c13_search(sd, modes, ops, d):
+    """the trajectory tie broke at operation d: replay the history on a fresh environment and give the
+    operation's own (state, action, draw) to generative_step of a SECOND environment that has no history;
+    a different answer is a failing input for C13 (step = generative step; the generative step depends on
+    nothing but its arguments)"""
+    try:
+        r1 = ImplRunner(scen.sd_to_scenario(sd), sd, modes)
+        for op in ops[:d]:
+            r1.run_op(op)
+        op = ops[d]
+        if op[0] not in (1, 2):
+            return None
+        idx = len(r1.pool) - 1 if op[0] == 1 else op[1]
+        if idx >= len(r1.pool):
+            return None
+        arg = r1.pool[idx].copy()
+        o1 = r1.run_op(op)
+        r2 = ImplRunner(scen.sd_to_scenario(sd), sd, modes)
+        r2.pool.append(arg)
+        o2 = r2.run_op([2, len(r2.pool) - 1, op[1] if op[0] == 1 else op[2], op[2] if op[0] == 1 else op[3]])
+        if o1[0] == 9 or o2[0] == 9:
+            return None if o1[0] == o2[0] else "after this history the operation raises, on an environment without history it does not (or vice versa)"
+        if o1[1] != o2[1]:
+            return (("step()" if op[0] == 1 else "generative_step()") + " after this history returns a different next state / "
+                    "observation / reward / done / info than generative_step() of an environment without history "
+                    "for the same state, action and draw")
+    except Inexact:
+        raise
+    except Exception:   # noqa: BLE001
+        return None
+    return None
 
 
 RUNNERS = {"C08": run_c08, "C09": run_c09, "C10": run_c10, "C11": run_c11, "C12": run_c12, "C13": run_c13}
